@@ -42,7 +42,7 @@ def main(prop):
     lem = run_lemmas(prop, wd, cdb, thorough)
     tdir = os.path.join(wd, 'trace')
     shards = NCPU
-    p = nvh(['matcher-trace', '--tier', tier(), '--seed', seed(), '--shards', shards, '--out', tdir], timeout=7200)
+    p = nvh(['matcher-trace', '--tier', tier(), '--seed', seed(), '--shards', shards, '--out', tdir, '--universe', os.path.join(ROOT, 'lib', 'universe.txt')], timeout=7200)
     gen = json.loads(p.stdout.strip().splitlines()[-1])
     env = {k: '0' for k in ['C01', 'C02', 'C03', 'C04', 'C05', 'C10']}
     env[prop] = '1'
